@@ -99,10 +99,18 @@ def apply_fault(cfg, fault, draw):
         cfg['instructions']['zzq'] = {'bytecode': {'value': 1, 'size': 8},
                                       'operands': {'count': 1, 'operand_sets': {'list': ['no_such_set']}}}
     elif fault == 'undeclared-register':
-        where = draw(st.sampled_from(['set', 'specific', 'indirect']))
+        where = draw(st.sampled_from(['set', 'specific', 'indirect', 'specific-of-another-length']))
         alt = {'type': 'indirect_register' if where == 'indirect' else 'register', 'register': 'qq',
                'bytecode': {'value': 0, 'size': 2}}
-        if where == 'specific':
+        if where == 'specific-of-another-length':
+            # the faulty combination lists two operands where the instruction takes one: it can never match, it is
+            # malformed all the same
+            good = {'type': 'numeric', 'argument': {'size': 8, 'byte_align': True}}
+            cfg['instructions']['zzq'] = {'bytecode': {'value': 1, 'size': 8},
+                                          'operands': {'count': 1, 'specific_operands': {
+                                              'ok': {'list': {'n': dict(good)}},
+                                              's': {'list': {'n': dict(good), 'r': alt}}}}}
+        elif where == 'specific':
             cfg['instructions']['zzq'] = {'bytecode': {'value': 1, 'size': 8},
                                           'operands': {'count': 1, 'specific_operands': {'s': {'list': {'r': alt}}}}}
         else:
@@ -122,8 +130,16 @@ def apply_fault(cfg, fault, draw):
             cfg.setdefault('macros', {})['zzm'] = [{'operands': oc, 'instructions': []}]
     elif fault == 'max-below-min':
         lo = draw(st.integers(1, 7))
-        cfg['operand_sets']['bad_set'] = {'operand_values': {'nb': {'type': 'numeric_bytecode',
-                                          'bytecode': {'size': 3, 'min': lo, 'max': draw(st.integers(0, lo - 1))}}}}
+        bad = {'type': 'numeric_bytecode', 'bytecode': {'size': 3, 'min': lo, 'max': draw(st.integers(0, lo - 1))}}
+        if draw(st.integers(0, 3)) == 0:
+            # inside a listed combination of another length than the operand count
+            good = {'type': 'numeric', 'argument': {'size': 8, 'byte_align': True}}
+            cfg['instructions']['zzq'] = {'bytecode': {'value': 1, 'size': 8},
+                                          'operands': {'count': 1, 'specific_operands': {
+                                              'ok': {'list': {'n': dict(good)}},
+                                              's': {'list': {'n': dict(good), 'nb': bad}}}}}
+        else:
+            cfg['operand_sets']['bad_set'] = {'operand_values': {'nb': bad}}
     elif fault in ('zone-inverted', 'zone-beyond-width'):
         pre = cfg.setdefault('predefined', {})
         zl = pre.setdefault('memory_zones', [])
